@@ -254,17 +254,17 @@ prop('C12',
 
 prop('C18', opts={'abstract_fp': True, 'pool_mode': 'hit'},
      harnesses=[{'name': 'C18_Ops', 'types': {'quick': ['int8', 'uint64', 'float32', 'float64'], 'thorough': ALL},
-                 'params': {'quick': {'MaxC': 2, 'MaxK': 2}, 'thorough': {'MaxC': 3, 'MaxK': 3}},
+                 'params': {'quick': {'MaxC': 2, 'MaxK': 2}, 'thorough': {'MaxC': 3, 'MaxK': 2}},
                  'splits': [{'op': o} for o in range(8)],
                  'covers': ['get-set', 'append-sample', 'read-write', 'striped', 'append-within-capacity', 'channel-view', 'slice', 'pool-cycle']}] +
      [{'name': 'C18_' + fn, 'types': {'quick': conv_pairs(fn, 1)[:1], 'thorough': conv_pairs(fn, 2)},
        'params': {'quick': {'MaxC': 2, 'MaxK': 2}, 'thorough': {'MaxC': 3, 'MaxK': 3}}} for fn in CONVS] +
-     [{'name': 'C18_Big_' + fn, 'types': {'quick': big_pairs(fn), 'thorough': conv_pairs(fn, 0)},
-       'params': {'quick': {'BigFrames': 300}, 'thorough': {'BigFrames': 4096}}, 'covers': ['big']} for fn in CONVS] +
+     [{'name': 'C18_Big_' + fn, 'types': {'quick': big_pairs(fn), 'thorough': conv_pairs(fn, 2) + big_pairs(fn)},
+       'params': {'quick': {'BigFrames': 300}, 'thorough': {'BigFrames': 2048}}, 'covers': ['big']} for fn in CONVS] +
      [{'name': 'C18_BigIO', 'types': {'quick': ['int8', 'float64'], 'thorough': QUICK_T},
-       'params': {'quick': {'BigFrames': 300}, 'thorough': {'BigFrames': 4096}}, 'covers': ['big']}],
-     bounds={'quick': 'every window of a buffer with 1..2 channels and 0..2 frames; input slices of every length; symbolic sample values; each operation group run once inside an allocation counter (appends within capacity also with partly filled last frames); pool cycle with the pooled buffer handed back (steady state); long buffers (255, 257 and 300 samples per run, thorough 4096 frames) for all conversions and reads/writes',
-             'thorough': '1..3 channels, 0..3 frames; all 13 element types; 4 type pairs per conversion'},
+       'params': {'quick': {'BigFrames': 300}, 'thorough': {'BigFrames': 2048}}, 'covers': ['big']}],
+     bounds={'quick': 'every window of a buffer with 1..2 channels and 0..2 frames; input slices of every length; symbolic sample values; each operation group run once inside an allocation counter (appends within capacity also with partly filled last frames); pool cycle with the pooled buffer handed back (steady state); long buffers (255, 257 and 300 samples per run, thorough 2048 frames) for all conversions and reads/writes',
+             'thorough': '1..3 channels, 0..2 frames; all 13 element types; 4-6 type pairs per conversion; long buffers of 2048 frames'},
      level_text='Symbolic execution of the real code with a ghost allocation counter: every SSA instruction that can allocate (make with non-zero capacity, growing append, heap-flagged Alloc, closure with bindings, boxing of a non-pointer value) executed inside the measured region is counted on every feasible path within the bounds; a candidate is reported only if the native build measures an allocation too (runtime.MemStats) on the replayed input.',
      level_note='Heap allocation is finally decided by the gc compiler (escape analysis, inlining), which works on a different IR: the SSA-level rule can miss an allocation the compiler introduces (e.g. a large local moved to the heap) - outside the claim - and candidates the compiler optimises away are filtered by the native measurement, so they never raise an alarm.',
      outside=['allocation decisions of the gc compiler beyond the SSA-level rule', 'lengths beyond the bound (no size-dependent allocation site exists on these paths)'])
